@@ -108,6 +108,12 @@ def keyProveOp (inp : Json) : Except String Json := do
       | _ => pw sB xr
     rmap := rmap ++ [(name, rv)]
     if (← getBool aj "covered") then covered := covered ++ [(name, xr, ← getDec aj "xr_tilde")]
+    -- the same name once more in xr_cap (its own commitment): a proof with repeated names
+    match optField aj "covered_again_xr_tilde" with
+    | some (.str t) => match parseDecInt t with
+      | some v => covered := covered ++ [(name, xr, v)]
+      | none => throw "bad covered_again_xr_tilde"
+    | _ => pure ()
   let zv ← match optField inp "z_override" with
     | some (.str t) => match parseDecInt t with
       | some v => pure v
